@@ -9,6 +9,26 @@ CLAIMED = {
         technique="deterministic simulation: real App::run + ThreadPool on humsim's in-memory TCP and virtual clock, reference HTTP clients with explicit stream segmentation, seeded schedules and network faults, reference connection model as oracle",
         text="Seeded search over application configurations, client scripts (1..8 clients, 1..6 requests each over methods x targets x versions x Connection x bodies x malformed kinds x idle gaps), explicit segmentations of the byte stream (one byte per segment up to several requests per segment), lock-step and pipelined pacing, endings (close/half-close/RST/truncation), short reads/writes, slow readers, latency, and thread schedules. Oracle: strict response-stream grammar, count/order, version/Date/Server/CORS/Content-Length/body, keep-alive disposition and self-delimitation, 400/408 mapping with virtual-time lower bound, panic isolation, handler log = requests sent. Sampling: a clean batch is evidence, not proof.",
         note="Trusted: humsim scheduler and TCP model (reliable ordered byte stream; close with unread data modelled as orderly FIN; server-side receive window >= one client script); the reference HTTP grammar; threaded runtime only (tokio twin not covered by this check)."),
+    "C02": dict(
+        level="exploration", design="§6 C02",
+        technique="deterministic simulation of the byte source: Request::from_stream over a scripted reader whose read-size plan (every split point, bytewise, random chunkings, EINTR) is the schedule; reference request model as oracle; serialise-parse round trip",
+        text="Generated well-formed request models (methods, paths, queries, 0..60 headers with repeated names in random case, UTF-8 values, Cookie and X-Forwarded-For lists, bodies to 64 KiB, lines over 8 KiB) parsed under every two-chunk split of messages <= 2 KiB plus bytewise/random/EINTR plans; parsed fields must equal the model under every plan and survive serialise+parse. Split points of each sampled message are enumerated; models are sampled.",
+        note="Trusted: the reference model/renderer; sync parser only (the tokio parser is a textual twin, not exercised); at most one Cookie / X-Forwarded-For field per request."),
+    "C10": dict(
+        level="fault_enumeration", design="§6 C10",
+        technique="scripted-reader simulation of Frame::from_stream: all 65 536 two-byte headers x read plans x truncation at every offset (EOF and reset), plus seeded random frames against a reference RFC 6455 codec",
+        text="Every two-byte frame header is enumerated with a complete remainder and decoded under whole/bytewise/every-split/random/EINTR read plans, and truncated at every offset; reserved opcodes must be rejected, truncations must be read errors, complete frames must decode to the reference frame with the payload unmasked. Random frames over FIN x RSV x opcode x mask x the boundary length set up to 1 MiB check the encoder against the reference layout and the round trip.",
+        note="Trusted: reference codec; the cfg-gated hook humphrey_ws::verif only forwards to the private Frame. Claimed lengths <= 1 MiB here (huge claims are C03's)."),
+    "C16": dict(
+        level="exploration", design="§6 C16",
+        technique="deterministic simulation: 1..8 threads through the real RwLock<Cache> under the humsim scheduler with a virtual wall clock (jumps onto second boundaries and age limits); linearisation by in-lock sequence numbers; reference model = the property; handler level over real files",
+        text="Seeded histories of set/get/sweep/clock-advance through the real Cache behind the hooked RwLock, checked in lock order against a model that only knows the property (latest bytes+MIME for the same (host,path), never older than the limit, retrievable total <= size limit, hit right after an in-limit store); one case in eight drives the real file/directory handlers with files rewritten between requests.",
+        note="Trusted: humsim RwLock/clock; forward clock jumps only; with several threads handler-level staleness is not bounded (read-then-store is not atomic), only foreign bytes/wrong type are checked there."),
+    "C17": dict(
+        level="exploration", design="§6 C17",
+        technique="deterministic simulation with a virtual wall clock under humphrey-auth's session expiry (clock moved to expiry-1s / expiry / expiry+1s), real Argon2/OsRng, auth-route requests over the simulated network, reference session model checked after every step",
+        text="Seeded histories of up to 60 operations over 1..5 users (create/remove user, verify right/wrong/other/unknown, create session default/0/long, refresh, invalidate by token/user, get_uid_by_token, authenticated route with valid/stale/absent cookie, clock advances onto expiry boundaries), with and without pepper, every return value compared with a reference model; tokens must be 64 hex digits and never repeat.",
+        note="Trusted: the one hook (UNIX_EPOCH.elapsed -> virtual wall clock); single driver thread (the property quantifies over histories)."),
     "C08": dict(
         level="exploration", design="§6 C08",
         technique="deterministic simulation: real ThreadPool under the humsim baton scheduler, seeded random/sticky/PCT/round-robin schedules, real panics, stuck detection",
